@@ -604,6 +604,37 @@ def _hv_truth(prog):
     return hv_truth(prog)
 
 
+def arg_vars(prog: Program) -> RuleResult:
+    """The variables of a call are those of its arguments, all the way down: in bigger(double(x), y) the call depends on x.  exists / for_all /
+    or_ decide what a condition is judged *per value of* from that list; an argument that is itself a call and is taken for a leaf hides x -
+    exists() then answers the first satisfying x only, not_(exists()) accepts every x."""
+    r = RuleResult("ARG-VARS", "the variables of a call include the variables of its arguments, recursively", floor=1)
+    var = prog.cls("symbolic.Variable")
+    f = var.methods.get("_all_variable_instances_")
+    if f is None:
+        raise AnalysisError("ARG-VARS: Variable._all_variable_instances_ vanished")
+    loops = [x for x in walk_local(f.node) if isinstance(x, (ast.For, ast.comprehension)) and "_child_vars_" in src(x.iter)]
+    if not loops:
+        raise AnalysisError("ARG-VARS: the child variables are no longer walked")
+    bad = None
+    n_rec = 0
+    for lp in loops:
+        tv = {y.id for y in ast.walk(lp.target) if isinstance(y, ast.Name)}
+        body = lp.body if isinstance(lp, ast.For) else []
+        rec = [y for st in body for y in ast.walk(st) if isinstance(y, ast.Attribute) and y.attr == "_all_variable_instances_" and isinstance(y.value, ast.Name) and y.value.id in tv]
+        n_rec += len(rec)
+        # the recursion has to be unconditional: a branch that takes a child for a leaf (append(v)) skips what is below it
+        for st in body:
+            for t in [y for y in ast.walk(st) if isinstance(y, ast.If)]:
+                shortcut = [c for b in t.body + t.orelse for c in ast.walk(b) if isinstance(c, ast.Call) and isinstance(c.func, ast.Attribute) and c.func.attr in ("append", "add") and c.args and isinstance(c.args[0], ast.Name) and c.args[0].id in tv]
+                if shortcut:
+                    bad = bad or (t, shortcut[0])
+    r.check(n_rec > 0 and bad is None, f"{f.short}#arguments-recursively", site(f, bad[0]) if bad else site(f), src(bad[1])[:60] if bad else f"{n_rec} recursive step(s)", "every argument contributes its own variables",
+            f"under `{src(bad[0].test)[:50] if bad else ''}` an argument is taken for a leaf (`{src(bad[1])[:40] if bad else ''}`): the variables below an argument that is itself a call are missing - "
+            "exists(y, bigger(double(x), y)) gives every x the same key and answers the first satisfying x only")
+    return r
+
+
 def _cond_fold(prog):
     # a call with ordinary objects returns its plain result (a bool, a predicate instance); written as a condition it is folded like any
     # other condition - and a predicate instance is judged by its verdict, when the query is evaluated
@@ -620,4 +651,4 @@ def run(prog: Program, tier: str) -> List[RuleResult]:
     return [guard(lambda: pred_align(prog)), guard(lambda: pred_dispatch(prog)), guard(lambda: pred_once(prog)), guard(lambda: pred_names(prog)), guard(lambda: pred_fresh(prog)), guard(lambda: lit_one(prog)), guard(lambda: arg_symbolic(prog)), guard(lambda: ep_operand(prog)),
             # a variable written in two positions of a call, or bound by an earlier conjunct, reaches the callable with its bound value -
             # whatever that value is: a falsy one taken for "not bound" is enumerated again and the callable runs with arguments that were never written together
-            guard(lambda: ep_bound(prog)), guard(lambda: _hv_truth(prog)), guard(lambda: _cond_fold(prog))]
+            guard(lambda: ep_bound(prog)), guard(lambda: _hv_truth(prog)), guard(lambda: _cond_fold(prog)), guard(lambda: arg_vars(prog))]
